@@ -1199,15 +1199,19 @@ def run(ctx):
         for r in env_rows:
             combos = [('uniform', 'array1', (2, 2)), ('truncnorm', 'float', (2, 1))]
             if not q:
-                combos += [('uniform', 'float', (2, 1)), ('truncnorm', 'array1', (2, 2)), ('truncnorm', 'array1', (4, 1))]
-            for pr, ret, lay in combos:
+                combos += [('uniform', 'float', (2, 1)), ('truncnorm', 'array1', (4, 1))]
+            for ci, (pr, ret, lay) in enumerate(combos):
                 if True:
-                    for k in range(1 if q else 3):
+                    for k in range(1 if q else 2):
                         c = {'kind': 'tree', 'drive': 'steps', 'rows': r, 'prior': pr, 'ret': ret, 'useed': base + k,
-                             'n_sim_round': lay[0], 'batch_size': lay[1], 'll0': 0.5, 'N': 3 if q else 4}
+                             'n_sim_round': lay[0], 'batch_size': lay[1], 'll0': 0.5,
+                             'N': 3 if (q or k > 0) else 4}
                         cases.append(c)
-                        if not q and k == 0:
-                            cases.append(dict(c, N=7, bound=3))
+                        if not q and k == 0 and ci == 0:
+                            deep = r in (None, [[-1, 5]], [['-inf', 4]])
+                            cases.append(dict(c, N=7, bound=3 if deep else 2))
+                            if r == [[-1, 5]]:
+                                cases.append(dict(c, N=5))
         _record_trees(ctx, cases, 'mh-step')
 
     # ---------------------------------------------------------------- mh-chain (mode E on the real sample() loop)
@@ -1219,7 +1223,7 @@ def run(ctx):
                      'useed': base + 1, 'n_sim_round': lay[0], 'batch_size': lay[1], 'N': 2 if q else 3}
                 cases.append(c)
                 if not q or lay == (2, 2):
-                    cases.append(dict(c, N=4 if q else 6, bound=2 if q else 3))
+                    cases.append(dict(c, N=4 if q else 5, bound=3 if (not q and lay == (2, 2)) else 2))
         _record_trees(ctx, cases, 'mh-chain')
 
     ctx.rule = (
